@@ -243,7 +243,10 @@ def extra_checks(tier, seed):
                   z3.Sum([rec[j] * (256 ** (3 - j)) for j in range(4)]) == v, 30000),
             solve("C03/lemma/div-chain", [v >= 0], chain, 30000),
             solve("C03/lemma/record-body-follows-the-prefix", [v == z3.Length(d), v >= 0, v < 2 ** 32],
-                  z3.Extract(rec, 4, v) == d, 30000)]
+                  z3.Extract(rec, 4, v) == d, 30000)] + ([__import__("pyvc.replaylib", fromlist=["x"]).native_crosscheck(
+                      "C03/bounded/batches-through-the-real-codecs", _BATCH_HARNESS,
+                      "batches of 0..4 out of 7 sample objects through the real msgpack / cbor2 / ubjson object serializers "
+                      "(evidence for the assumed codec law, bounded)")] if tier == "thorough" else [])
 
 
 # ------------------------------------------------------------------------------------------ replay on the real code
